@@ -167,6 +167,60 @@ template <typename E> void engine_case(Rng& rng, char const* ename)
     sample(info, 4);
 }
 
+// scripted engine that forces canonical numbers of exactly 0 (and the largest value below 1) into random
+// positions: the consumption per call must not depend on the values drawn
+void scripted_case(Rng& rng)
+{
+    std::size_t dims = rng.range(1, 4);
+    int integ = rng.below(3);
+    std::size_t per_call = integ == 2 ? dims + 1 : dims;
+    std::vector<std::size_t> calls;
+    std::size_t iters = rng.range(1, 3), total = 0;
+    for (std::size_t i = 0; i < iters; ++i) { calls.push_back(rng.range(5, 60)); total += calls.back(); }
+    auto script = std::make_shared<Script>();
+    script->tail_seed = rng.next();
+    for (std::size_t i = 0; i < total * per_call + 8; ++i)
+    {
+        unsigned r = rng.below(6);
+        script->raw.push_back(r == 0 ? 0 : r == 1 ? ~std::uint64_t(0) : rng.next());
+        if (r == 0) count("scripted_zero_numbers");
+    }
+    ScriptEngine::current() = script;
+    ScriptEngine initial(script);
+    CallLog log;
+    log.pattern = rng.below(5);
+    g_log = &log;
+    J info;
+    info.s("T", tname<T>::get()).s("engine", "scripted-64-bit").u("dims", dims).uv("calls", calls).i("pattern", log.pattern);
+    drawlog() = DrawLog();
+    if (integ == 0)
+    {
+        typedef hep::plain_chkpt_with_rng<ScriptEngine, T> chk_t;
+        auto r = hep::plain(hep::make_integrand<T>(rec_f<hep::mc_point<T>>, dims), calls, chk_t(initial), GoOn());
+        judge_run<ScriptEngine>("scripted", "plain", dims, 1, calls, log, initial, r.generator(), J(info).s("integrator", "plain"), false);
+    }
+    else if (integ == 1)
+    {
+        typedef hep::vegas_chkpt_with_rng<ScriptEngine, T> chk_t;
+        auto r = hep::vegas(hep::make_integrand<T>(rec_f<hep::vegas_point<T>>, dims), calls, chk_t(initial, rng.range(2, 9), T(1.5)), GoOn());
+        judge_run<ScriptEngine>("scripted", "vegas", dims, 1, calls, log, initial, r.generator(), J(info).s("integrator", "vegas"), false);
+    }
+    else
+    {
+        std::size_t channels = rng.range(1, 4);
+        PowerMap<T> map;
+        for (std::size_t c = 0; c < channels; ++c) map.a.push_back(T(c) * T(0.5));
+        typedef hep::multi_channel_chkpt_with_rng<ScriptEngine, T> chk_t;
+        auto r = hep::multi_channel(hep::make_multi_channel_integrand<T>(rec_f<hep::multi_channel_point<T>>, dims, map, dims, channels), calls,
+            chk_t(initial, T(), T(0.25)), GoOn());
+        judge_run<ScriptEngine>("scripted", "multi_channel", dims + 1, 1, calls, log, initial, r.generator(), J(info).s("integrator", "multi_channel"), false);
+    }
+    g_log = 0;
+    ++ctx().evaluations;
+    count("scripted_runs");
+    nontrivial(hash_str(info.str()));
+}
+
 // synthetic ranges: the predictor against the measured cost, and constancy of the cost over many numbers
 template <std::uint64_t MIN, std::uint64_t MAX> void syn_case(Rng& rng, char const* name, bool run)
 {
@@ -252,6 +306,7 @@ void vfh_run_case(std::uint64_t idx, Rng& rng)
 #if VF_ENGSET == 0
     switch (idx % 3) { case 0: engine_case<std::minstd_rand0>(rng, "minstd_rand0"); break; case 1: engine_case<std::minstd_rand>(rng, "minstd_rand"); break; default: engine_case<std::knuth_b>(rng, "knuth_b"); break; }
 #elif VF_ENGSET == 1
+    if (idx % 4 == 3) { scripted_case(rng); return; }
     switch (idx % 3) { case 0: engine_case<std::mt19937>(rng, "mt19937"); break; case 1: engine_case<std::mt19937_64>(rng, "mt19937_64"); break; default: engine_case<std::ranlux24_base>(rng, "ranlux24_base"); break; }
 #elif VF_ENGSET == 2
     switch (idx % 3) { case 0: engine_case<std::ranlux48_base>(rng, "ranlux48_base"); break; case 1: engine_case<std::ranlux24>(rng, "ranlux24"); break; default: engine_case<std::ranlux48>(rng, "ranlux48"); break; }
